@@ -1,6 +1,9 @@
 """Positive controls for the purity rules: every function below must be reported on every run."""
 import functools
+import logging
 import os
+
+logger = logging.getLogger(__name__)
 
 _seen = []
 _memo = {}
@@ -52,8 +55,14 @@ def extends_alias_in_place(x):
     return len(seen)
 
 
+@functools.lru_cache
+def cached_logs(line):
+    logger.warning("unparsable %s", line)
+
+
 def entry(xs):
     Holder()
+    cached_logs("x")
     extends_alias_in_place(0)
     appends_module_list(1)
     fills_module_memo(2)
